@@ -207,11 +207,17 @@ func observe(tx types.Transaction, out *Outcome) {
 		sort.Strings(out.Data[id])
 	}
 	if r, err := tx.RequestBodyReader(); err == nil {
-		b, _ := io.ReadAll(r)
+		b, err := io.ReadAll(r)
 		out.ReqBody = string(b)
+		if err != nil {
+			out.ErrSteps = append(out.ErrSteps, "RequestBodyReader.Read")
+		}
 	}
 	if r, err := tx.ResponseBodyReader(); err == nil {
-		b, _ := io.ReadAll(r)
+		b, err := io.ReadAll(r)
 		out.RespBody = string(b)
+		if err != nil {
+			out.ErrSteps = append(out.ErrSteps, "ResponseBodyReader.Read")
+		}
 	}
 }
